@@ -38,13 +38,14 @@ TORCH_ARGS = {
     "randn_like": [("default", lambda a, b: ((a,), {}))],
     "full_like": [("value", lambda a, b: ((a, 3.0), {}))],
     "flatten": [("01", lambda a, b: ((a, 0, 1), {})), ("default", lambda a, b: ((a,), {}))],
-    "gather": [("dim1", lambda a, b: ((a, 1, torch.tensor([[0, 2], [1, 1]])), {}))],
+    "gather": [("dim1", lambda a, b: ((a, 1, torch.tensor([[0, 2], [1, 1]])), {})),
+               ("kw-input", lambda a, b: ((), {"input": a, "dim": 1, "index": torch.tensor([[0, 2], [1, 1]])}))],
     "permute": [("10", lambda a, b: ((a, (1, 0)), {}))],
     "split": [("int", lambda a, b: ((a, 1, 0), {})), ("list", lambda a, b: ((a, [1, 2], 1), {}))],
     "squeeze": [("default", lambda a, b: ((a,), {})), ("dim", lambda a, b: ((a, 0), {}))],
     "unbind": [("0", lambda a, b: ((a, 0), {})), ("1", lambda a, b: ((a, 1), {}))],
     "unflatten": [("0", lambda a, b: ((a, 0, (1, 2)), {}))],
-    "unsqueeze": [("0", lambda a, b: ((a, 0), {})), ("-1", lambda a, b: ((a, -1), {}))],
+    "unsqueeze": [("0", lambda a, b: ((a, 0), {})), ("-1", lambda a, b: ((a, -1), {})), ("kw-input", lambda a, b: ((), {"input": a, "dim": 0}))],
     "masked_select": [("mask", lambda a, b: ((a, _mask()), {}))],
     "transpose": [("01", lambda a, b: ((a, 0, 1), {}))],
     "where": [("cond", lambda a, b: ((_mask(), a, b), {}))],
@@ -374,7 +375,7 @@ def containers(run):
                         run.oracle_ok(site)
 
             ops = [
-                ("index0", lambda t: t[0]), ("slice", lambda t: t[:, 1:]), ("reshape", lambda t: t.reshape(6)),
+                ("index0", lambda t: t[0]), ("slice", lambda t: t[:, 1:]), ("reshape", lambda t: t.reshape(6)), ("reshape-nd", lambda t: t.reshape(3, 2)),
                 ("unsqueeze", lambda t: t.unsqueeze(0)), ("permute", lambda t: t.permute(1, 0)), ("clone", lambda t: t.clone()),
                 ("expand", lambda t: t.expand(2, 2, 3)), ("flatten", lambda t: t.flatten(0, 1)), ("mask", lambda t: t[torch.tensor([True, False])]),
             ]
@@ -398,6 +399,67 @@ def containers(run):
                 for i in range(2):
                     got = st.unbind(dim)[i]
                     check("stack", [f"dense{dim}.unbind{i}"], got, cls, B.field_view(fresh(i)), f"member {i} of the dense stack")
+            # (b') members whose non-tensor fields DIFFER: every position of the stack reads the payload of the member it
+            # comes from (expected built with numpy, not with the library)
+            da, db = Z.make(cls, seed=0, strings="A"), Z.make(cls, seed=1, strings="B")
+            for dim in ((0, 1, 2) if "s" in cls.__expected_keys__ else ()):
+                for how in ("torch.stack", "method"):
+                    site, case = "stack-differing", [f"{how}{dim}"]
+                    run.case((site, cname, how, dim))
+                    try:
+                        st = torch.stack([da, db], dim) if how == "torch.stack" else da.stack([da, db], dim)
+                    except Exception as e:  # noqa: BLE001
+                        if how == "method":
+                            run.count("containers.raises", f"stack-method:{type(e).__name__}")    # finding C15-classmethod-on-class territory
+                            continue
+                        run.oracle_fail(site, [cname] + case, f"raises {type(e).__name__}: {str(e)[:100]}", fingerprint=f"{site}:raises")
+                        continue
+                    why = None
+                    want_s = np.stack([np.full((2, 3), "hiA", dtype=object), np.full((2, 3), "hiB", dtype=object)], dim).tolist()
+                    want_t = np.stack([np.full((2, 3), "nestedA", dtype=object), np.full((2, 3), "nestedB", dtype=object)], dim).tolist()
+                    if type(st) is not cls:
+                        why = f"came back as {type(st).__name__}"
+                    elif list(st.batch_size) != list(np.stack([np.empty((2, 3))] * 2, dim).shape):
+                        why = f"batch size {list(st.batch_size)}"
+                    elif st.s != want_s:
+                        why = f"field s reads {st.s}, expected {want_s}"
+                    elif st.n.t != want_t:
+                        why = f"nested field n.t reads {st.n.t}, expected {want_t}"
+                    else:
+                        ent = st._tensordict.get("s")
+                        if list(ent.batch_size) != list(st.batch_size):
+                            why = f"entry s has batch size {list(ent.batch_size)}, the tensorclass {list(st.batch_size)}"
+                    if why is None:
+                        for i, (src, tag) in enumerate(((da, "A"), (db, "B"))):
+                            piece = st.unbind(dim)[i]
+                            if B.field_view(piece) != B.field_view(src):
+                                why = f"unbind({dim})[{i}] is not member {i}"
+                                break
+                            idx = (slice(None),) * dim + (i,)
+                            if B.field_view(st[idx]) != B.field_view(src):
+                                why = f"indexing position {i} of the stack dim does not give member {i}"
+                                break
+                            el = (0,) * dim + (i,) + (0,) * (2 - dim)
+                            if st[el].s != "hi" + tag or st[el].n.t != "nested" + tag:
+                                why = f"element {el} reads s={st[el].s!r}"
+                                break
+                    if why is None:
+                        bad = B.fields_readable(st)
+                        if bad:
+                            why = f"fields {bad} unreadable"
+                    if why is None:
+                        # a reshape that is neither a flatten nor an unflatten keeps every payload in row-major order
+                        new = list(reversed(st.batch_size))
+                        try:
+                            rs = st.reshape(*new)
+                            if rs.s != np.array(want_s, dtype=object).reshape(new).tolist():
+                                why = f"reshape{tuple(new)}: field s reads {rs.s}"
+                        except Exception as e:  # noqa: BLE001
+                            why = f"reshape{tuple(new)} raises {type(e).__name__}: {str(e)[:80]}"
+                    if why:
+                        run.oracle_fail(site, [cname] + case, why, fingerprint=f"{site}:{how}{dim}:{why[:40]}")
+                    else:
+                        run.oracle_ok(site)
             for dim in (0, 1):
                 lz = LazyStackedTensorDict.lazy_stack([fresh(0), fresh(1)], dim)
                 run.count("containers.lazy_stack_type", type(lz).__name__)
@@ -589,3 +651,136 @@ def items_stream(run, drv):
                 run.oracle_fail("setitem-fields", case, f"after the indexed assignment fields {bad} do not read as the underlying entries", fingerprint=f"setitem:{case[3]}")
             else:
                 run.oracle_ok("setitem-fields")
+
+
+# --------------------------------------------------------------------------- update / tuple pieces
+def update_stream(run, drv):
+    """`tc.update(src)` / `update_` for every kind of source (tensorclass / dict / tensordict; mentioning the optional
+    field or leaving it None / unmentioned) x destination state (optional field set / None).  Reference: the same update
+    on the underlying tensordict.  Afterwards EVERY read path of the destination (attribute, to_dict, to_tensordict,
+    items) must agree, on the same object."""
+    corr_reqs, corr_pend = [], []
+    for cname in ("D1", "S1", "Ac", "Nc", "Sh", "D2"):
+        cls = Z.BEHAVIOUR_CLASSES[cname]
+
+        def dest(o_set):
+            t = Z.make(cls, seed=0, strings="D")
+            if o_set:
+                t.o = torch.ones(2, 3)
+            return t
+
+        def src_tc(o_set):
+            t = Z.make(cls, seed=1, strings="S")
+            if o_set:
+                t.o = torch.full((2, 3), 2.0)
+            return t
+
+        def entries(t, tag):
+            return [[k, [_entry_desc(t._tensordict, k)[0], tag + "_" + k]] for k in t._tensordict.keys()]
+        sources = [
+            ("tc-o-none", lambda: src_tc(False), lambda v: v._tensordict),
+            ("tc-o-set", lambda: src_tc(True), lambda v: v._tensordict),
+            ("dict-partial", lambda: {"x": torch.full((2, 3, 4), 5.0)}, lambda v: v),
+            ("dict-with-o", lambda: {"x": torch.full((2, 3, 4), 5.0), "o": torch.full((2, 3), 2.0)}, lambda v: v),
+            ("td-partial", lambda: TensorDict({"x": torch.full((2, 3, 4), 5.0)}, batch_size=[2, 3]), lambda v: v),
+            ("td-with-o", lambda: TensorDict({"o": torch.full((2, 3), 2.0)}, batch_size=[2, 3]), lambda v: v),
+        ]
+        for method in ("update", "update_"):
+            for o_dest in (False, True):
+                for sname, mk, to_td_arg in sources:
+                    d, ref = dest(o_dest), dest(o_dest)._tensordict
+                    site, case = "update", [cname, method, sname, "dest-o-set" if o_dest else "dest-o-none"]
+                    run.case(tuple(case))
+                    try:
+                        with warnings.catch_warnings():
+                            warnings.simplefilter("ignore")
+                            getattr(ref, method)(to_td_arg(mk()))
+                    except Exception as e:  # noqa: BLE001
+                        run.count("update.td_raises", f"{method}:{sname}:{err_class(e)}")
+                        continue
+                    try:
+                        with warnings.catch_warnings():
+                            warnings.simplefilter("ignore")
+                            out = getattr(d, method)(mk())
+                    except Exception as e:  # noqa: BLE001
+                        run.oracle_fail(site, case, f"tensordict accepts, tensorclass raises {type(e).__name__}: {str(e)[:100]}", fingerprint=f"update:{method}:{sname}:raises")
+                        continue
+                    # correspondence with the model of `_update` (tensorclass / dict sources; `update` only: `update_` writes existing
+                    # entries in place and is not modelled): which side every entry comes from, and the placeholders left
+                    if method == "update" and sname.startswith(("tc", "dict")):
+                        s_obj = mk()
+                        s_tc = s_obj if is_tensorclass(s_obj) else cls.from_dict(s_obj, auto_batch_size=False)
+                        d0 = dest(o_dest)
+                        impl_td = []
+                        for k in sorted(d._tensordict.keys()):
+                            now = B.canon(d._tensordict.get(k))
+                            if k in s_tc._tensordict.keys() and now == B.canon(s_tc._tensordict.get(k)):
+                                tag = "s_" + k
+                            elif k in d0._tensordict.keys() and now == B.canon(d0._tensordict.get(k)):
+                                tag = "d_" + k
+                            else:
+                                tag = "?"
+                            impl_td.append([k, [_entry_desc(d._tensordict, k)[0], tag]])
+                        corr_reqs.append(sx("c15.update", True, entries(d0, "d"), B.nt_desc(d0), entries(s_tc, "s"), B.nt_desc(s_tc)))
+                        corr_pend.append((case, [["td"] + impl_td, ["nt", B.nt_sorted_desc(d)]]))
+                    why = None
+                    if out is not d:
+                        why = f"returned {type(out).__name__}, not the receiver"
+                    elif B.canon(d._tensordict) != B.canon(ref):
+                        why = "the underlying tensordict differs from the updated plain tensordict"
+                    else:
+                        bad = B.fields_readable(d)
+                        if bad:
+                            why = f"after the update the read paths disagree: {bad}"
+                    if why:
+                        run.oracle_fail(site, case, why, fingerprint=f"update:{method}:{sname}:{why[:50]}")
+                    else:
+                        run.oracle_ok(site)
+    for (case, impl), ans in zip(corr_pend, drv.ask_many(corr_reqs)):
+        run.corr("tensorclass.update(_update)", case, impl, parse_sx(ans))
+
+
+def tuple_pieces_stream(run):
+    """pieces returned by the tuple-returning delegated methods are independent instances (B.pieces_independent)"""
+    calls = [
+        ("split", lambda t: t.split([1, 1], 0)), ("split-int", lambda t: t.split(1, 1)), ("chunk", lambda t: t.chunk(2, 0)),
+        ("unbind0", lambda t: t.unbind(0)), ("unbind1", lambda t: t.unbind(1)),
+        ("split_keys", lambda t: t.split_keys(["x"])), ("split_keys-2", lambda t: t.split_keys(["x"], ["s"])),
+        ("split_keys-o", lambda t: t.split_keys(["o", "s"], strict=False)),
+        ("torch.split", lambda t: torch.split(t, 1, 0)), ("torch.unbind", lambda t: torch.unbind(t, 1)),
+    ]
+    for cname in ("D1", "S1", "Ac", "Nc", "Sh", "D2"):
+        cls = Z.BEHAVIOUR_CLASSES[cname]
+        for label, call in calls:
+            for lazy in (False, True):
+                tc = Z.make_lazy(cls) if lazy else Z.make(cls)
+                case = [cname, label + ("@lazy" if lazy else "")]
+                run.case(("tuple-pieces",) + tuple(case))
+                try:
+                    with warnings.catch_warnings():
+                        warnings.simplefilter("ignore")
+                        pieces = call(tc)
+                except Exception as e:  # noqa: BLE001
+                    run.count("tuple_pieces.raises", f"{case[1]}:{err_class(e)}")
+                    continue
+                tcs = [q for q in pieces if is_tensorclass(q)]
+                if len(tcs) < 2:
+                    run.count("tuple_pieces.fewer_than_two", case[1])
+                    continue
+                why = None
+                for i, q in enumerate(tcs):
+                    bad = B.fields_readable(q) if type(q) is cls else []
+                    if bad:
+                        why = f"piece {i}: read paths disagree: {bad}"
+                        break
+                why = why or B.pieces_independent(pieces, tc)
+                if why is None and not lazy:
+                    # (pieces of a lazy stack taken along its stack dim hold the receiver's own members: a write on a piece is a
+                    # write on a member, for the plain tensordict too — the receiver is only compared for dense receivers)
+                    bad = B.fields_readable(tc)
+                    if bad:
+                        why = f"the receiver's read paths disagree afterwards: {bad}"
+                if why:
+                    run.oracle_fail("tuple-pieces", case, why, fingerprint=f"tuple-pieces:{case[1]}:{why[:50]}")
+                else:
+                    run.oracle_ok("tuple-pieces")
